@@ -45,9 +45,8 @@ def build(case):
     out = case.run()
     mi = match_sections(ds, f.matching) if f.matching else None
     X, y, w, _ = calibration_single_ended_solver(ds, f.sections, kw["st_var"], kw["ast_var"], solver="external", matching_indices=mi, trans_att=list(f.trans_att))
-    Xd = X.toarray() * np.sqrt(np.broadcast_to(w, y.shape))[:, None]
-    Xd = Xd / np.maximum(np.linalg.norm(Xd, axis=0), 1e-300)
-    if np.linalg.matrix_rank(Xd, tol=1e-9) < Xd.shape[1]:
+    from vlib import refdesign
+    if not refdesign.identifiable(case):   # decided on the generator's own layout, not on matrices produced by the code under test
         raise NotIdentifiable()
     va = case.variance_arrays()
     st, ast = ds.st.values, ds.ast.values
@@ -90,7 +89,8 @@ def gen_params(ctx):
         p = calib.random_params(rng, False, quick=True, **force)
         out.append(p)
     for k in range(3 if ctx.quick else 30):  # matching sections across splices, tuples in any order
-        out.append(calib.random_params(rng, False, quick=True, nta=int(rng.integers(1, 3)), nmatch=2, nx=int(rng.integers(20, 28)), noise=0.01, nt=int(rng.integers(1, 3))))
+        out.append(calib.random_params(rng, False, quick=True, nta=int(rng.integers(1, 3)), nmatch=2, nx=int(rng.integers(20, 28)), noise=0.01, nt=int(rng.integers(1, 3)),
+                                       match_swap=bool(k % 2)))
     for k in range(2 if ctx.quick else 20):  # a splice exactly on a reference location
         out.append(calib.random_params(rng, False, quick=True, nta=int(rng.integers(1, 3)), nmatch=0, nx=int(rng.integers(16, 24)), noise=0.01, nt=int(rng.integers(1, 3)), ta_on_ref=True))
     for k in range(2 if ctx.quick else 12):  # reference sections on one side of the splice only, a matching pair bridging it (splice behind / in front of all sections)
